@@ -364,8 +364,21 @@ def model_line(c, variant, lens=None):
 
 
 def run_model(ctx, mexe, cases, variant, lens_by_id=None):
-    text = "\n".join(model_line(c, variant, (lens_by_id or {}).get(c["id"])) for c in cases) + "\n"
-    r = ctx.run(mexe, text, timeout=150)
+    lines = [model_line(c, variant, (lens_by_id or {}).get(c["id"])) for c in cases]
+    chunks = [lines[i:i + 400] for i in range(0, len(lines), 400)] or [[]]
+
+    def one(chunk):
+        return ctx.run(mexe, "\n".join(chunk) + "\n", timeout=600)
+
+    with concurrent.futures.ThreadPoolExecutor(max_workers=6) as ex:
+        rs = list(ex.map(one, chunks))
+
+    class R:
+        pass
+    r = R()
+    r.out = "".join(x.out for x in rs)
+    r.err = " ".join((x.err or "")[-200:] for x in rs if x.rc != 0)
+    r.rc = next((x.rc for x in rs if x.rc != 0), 0)
     out = {}
     for line in r.out.splitlines():
         f = line.split()
@@ -649,7 +662,7 @@ def finite_cases(rng, start_id, per_method):
 
 
 def large_cases(rng, start_id, n, sizes):
-    """requests beyond N = 50 (thorough tier): every method, mostly valid keywords, generic / lattice / duplicated data"""
+    """requests beyond N = 50 (thorough tier): every method, mostly valid keywords, generic / lattice data"""
     out = []
     for i in range(n):
         m = METHODS[i % len(METHODS)]
@@ -657,7 +670,7 @@ def large_cases(rng, start_id, n, sizes):
         if m in ("tsne", "ms", "hlle", "spe", "fa"):
             N = min(N, 120)
         D = rng.choice([2, 3, 5, 8])
-        k = rng.choice([5, 8, 12, N - 1, N - 2])
+        k = rng.choice([5, 8, 12])          # the extracted model walks lists: keep N * k * k small
         L = None
         over = {}
         if m in ("lmds", "lisomap"):
@@ -679,7 +692,7 @@ def large_cases(rng, start_id, n, sizes):
         if m == "hlle":
             d = min(d, 4)
         c = make_case(rng, start_id + i, m=m, N=N, D=D, d=d, k=k, boundary=False,
-                      kind=rng.choice(["generic", "generic", "lattice", "duplicated"]),
+                      kind=rng.choice(["generic", "generic", "lattice"]),
                       em=rng.choice(["dense", "randomized"]) if m in EIGEN else "dense", **over)
         out.append(c)
     return out
